@@ -83,5 +83,19 @@ def conc(I, m, v, heap, depth=0):
         if o.kind == "symlist":
             from . import symlist
             return symlist.concretize(I, m, v, o, heap, depth, conc)
-        return {"t": "ext", "tag": o.meta.get("tag")}
+        tag = o.meta.get("tag")
+        if tag == "transport":
+            c = o.meta.get("init_closing", o.meta["closing"])
+            return {"t": "transport", "id": v.ref, "closing": bool(c.c) if c.c is not None else z3.is_true(_ev(m, c.t))}
+        if tag == "queue":
+            items = o.meta["items"]
+            return {"t": "queue", "id": v.ref, "items": conc(I, m, items, heap, depth + 1)["items"]}
+        if tag == "datetime":
+            return {"t": "datetime", "ts": _ev(m, o.meta["ts"]).as_long() if not isinstance(o.meta["ts"], int) else o.meta["ts"]}
+        if tag == "timedelta":
+            sv = o.meta["secs"]
+            return {"t": "timedelta", "secs": sv.c if sv.c is not None else _ev(m, sv.as_int()).as_long()}
+        if tag == "pset":
+            return {"t": "set", "items": []}
+        return {"t": "ext", "tag": tag}
     return {"t": "unknown", "repr": repr(v)[:80]}
